@@ -18,7 +18,7 @@ SB = NCHARS            # sentence boundary index
 IGN = NCHARS + 1       # ignore index
 UNIT = 1e-7
 BIG = 2000000000
-CASE_TIMEOUT = 60
+CASE_TIMEOUT = 120
 
 SHAPES = {
     "d16h2l2": dict(dim=16, heads=2, layers=2, ff=32),
